@@ -8,14 +8,17 @@
    Deliberate deviation, modelled as it is: a private key that does not match the configuration ends construction with an
    AssertionError (the constructor uses `assert`), every other rejection is the documented ValueError.
    LATECHECK = TRUE is a wrong variant (the length checks run before aes_rand is expanded, so an empty aes_key next to a
-   valid aes_rand is rejected although the table accepts it) used to show that the invariants can fail. *)
+   valid aes_rand is rejected although the table accepts it) used to show that the invariants can fail.
+   `callkeys` says whether the caller hands complete keys of its own to the check-in call (iter_recover_http(keys=...)): they
+   serve that one call and change nothing about what the decoder keeps.  CALLGUARD = TRUE is the wrong variant that decides
+   "are keys missing?" by looking at the keys of the call. *)
 EXTENDS Naturals, Sequences, FiniteSets, TLC
-CONSTANTS LATECHECK, PARTIAL
+CONSTANTS LATECHECK, PARTIAL, CALLGUARD
 AesC  == {"none", "empty", "k16", "k15", "k17"}
 HmacC == {"none", "empty", "h16", "h15"}
 RandC == {"none", "empty", "r16", "r5"}
 RsaC  == {"none", "match", "mismatch"}
-Args == [aes : AesC, hmac : HmacC, rand : RandC, rsa : RsaC, trial : BOOLEAN, verify : BOOLEAN]
+Args == [aes : AesC, hmac : HmacC, rand : RandC, rsa : RsaC, trial : BOOLEAN, verify : BOOLEAN, callkeys : BOOLEAN]
 Truthy(x) == x \notin {"none", "empty"}
 Len16(x) == x \in {"k16", "h16", "derived_aes", "derived_hmac", "md_aes", "md_hmac"}
 
@@ -53,7 +56,8 @@ CheckTrial == pc = "trial" /\ IF a.trial THEN Fail("ValueError", "trial")
 \* the first check-in: metadata is decrypted when there is a private key; missing session keys are then derived (PARTIAL = the
 \* wrong variant that only derives when there is no key at all)
 CheckIn == /\ pc = "ready"
-           /\ LET derive == a.rsa = "match" /\ (IF PARTIAL THEN aes = "none" /\ hmac = "none" ELSE aes = "none" \/ hmac = "none")
+           /\ LET missing == IF PARTIAL THEN aes = "none" /\ hmac = "none" ELSE aes = "none" \/ hmac = "none"
+                  derive  == a.rsa = "match" /\ missing /\ ~(CALLGUARD /\ a.callkeys)
               IN IF derive THEN aes' = "md_aes" /\ hmac' = "md_hmac" /\ res' = [res EXCEPT !.after = <<"md_aes", "md_hmac">>]
                  ELSE UNCHANGED <<aes, hmac, res>>
            /\ pc' = "done" /\ UNCHANGED a
